@@ -3,7 +3,7 @@
 # 1. confirm in a fresh scratch worktree: suite passes with the patch, demo fails with / passes without
 # 2. apply to /repo, run the named checks, revert.
 P=$1; V=$2; shift; shift
-SRC=/tmp/mut_out/$P/$V
+SRC=${MUT_ROOT:-/tmp/mut_out}/$P/$V
 WT=/tmp/wt_eval_$P$V
 export OMP_NUM_THREADS=1 MKL_NUM_THREADS=1
 git -C /repo worktree add --detach $WT HEAD >/dev/null 2>&1 || { echo "cannot create worktree"; exit 2; }
